@@ -296,16 +296,20 @@ func (p *grpcConnectionPool) newConnection(ctx context.Context, target *route.Ta
 		grpc.WithDefaultCallOptions(grpc.CallCustomCodec(grpc_proxy.Codec()), grpc.MaxCallRecvMsgSize(p.cfg.Proxy.GRPCMaxRxMsgSize)),
 	}
 
-	if target.URL.Scheme == "grpcs" && p.tlscfg != nil {
-		opts = append(opts, grpc.WithTransportCredentials(
-			credentials.NewTLS(&tls.Config{
-				ClientCAs:          p.tlscfg.ClientCAs,
-				InsecureSkipVerify: target.TLSSkipVerify,
-				// as per the http/2 spec, the host header isn't required, so if your
-				// target service doesn't have IP SANs in it's certificate
-				// then you will need to override the servername
-				ServerName: target.Opts["grpcservername"],
-			})))
+	if target.URL.Scheme == "grpcs" {
+		// a TLS backend is a TLS backend, also behind a plain 'proto=grpc'
+		// listener which has no TLS config of its own
+		upstream := &tls.Config{
+			InsecureSkipVerify: target.TLSSkipVerify,
+			// as per the http/2 spec, the host header isn't required, so if your
+			// target service doesn't have IP SANs in it's certificate
+			// then you will need to override the servername
+			ServerName: target.Opts["grpcservername"],
+		}
+		if p.tlscfg != nil {
+			upstream.ClientCAs = p.tlscfg.ClientCAs
+		}
+		opts = append(opts, grpc.WithTransportCredentials(credentials.NewTLS(upstream)))
 	} else {
 		opts = append(opts, grpc.WithInsecure())
 	}
